@@ -267,6 +267,7 @@ func (c *Crew) ProcessMsg(ctx context.Context, msg interface{}) (*Result, error)
 		if f, is := msg.(func(*Crew) interface{}); is {
 			msg = f(c)
 		}
+		vhook("dequeue", msg)
 
 		walkeds, err := c.RunMachines(ctx, msg)
 		if err != nil {
@@ -491,6 +492,7 @@ func (c *Crew) RunMachine(ctx context.Context, msg interface{}, m *crew.Machine)
 	// 	props["exec"] = ecmascript.UnsafeCmd
 	// }
 
+	vhook("present", m.Id, msg)
 	msgs := []interface{}{msg}
 
 	walked, err := spec.Walk(ctx, m.State, msgs, c.Conf.Ctl, props)
@@ -502,6 +504,7 @@ func (c *Crew) RunMachine(ctx context.Context, msg interface{}, m *crew.Machine)
 		m.State = to.Copy()
 		c.change(m.Id).State = to.Copy()
 	}
+	vhook("walked", m.Id, walked)
 
 	return walked, err
 }
